@@ -162,6 +162,15 @@ func driveC13(w *World) string {
 	}
 	for {
 		reason := e.Loop(w.AllDone)
+		if reason == "steps" && e.Quiet && cur != nil && !cur.Done {
+			// goroutines kept running without ever coming to rest: the call spins
+			where := "?"
+			if g := w.TaskG[cur.Task]; g != nil {
+				where = g.Site
+			}
+			w.pending = append(w.pending, w.viol("C13", "not-prompt", "task %d op %d (%s): its context ended at step %d while %s, and the call has not returned after %d further scheduler steps without time or network: it spins (last seen at %s)",
+				cur.Task, cur.Idx, cur.Op.Kind, cur.CancelStep, waitState(cur.CancelSite), e.Step-cur.CancelStep, where))
+		}
 		if reason != "quiet-idle" {
 			if e.Quiet && cur != nil && cur.Done {
 				// finished together with the whole workload
